@@ -408,10 +408,92 @@ class HeartbeatWindow:
         return {"V": V, "opened": True}
 
 
+class QuitIsolation:
+    """the quit key sent to simulation A's server while simulation B (no server) integrates in another thread: A stops, B is not
+    touched"""
+    def __init__(self, rebound):
+        self.rebound = rebound
+
+    def __call__(self, task):
+        ca, cb, port = task
+        rb.quiet()
+        rebound = self.rebound
+        if not os.path.exists("rebound.html"):
+            open("rebound.html", "a").close()
+        refB, tmaxB = make(rebound, CONFIGS[cb])
+        refB.integrate(tmaxB, exact_finish_time=eft_of(CONFIGS[cb]))
+        F0 = particles_bits(refB)
+        A, tmaxA = make(rebound, CONFIGS[ca])
+        B, tmaxB = make(rebound, CONFIGS[cb])
+        for attempt in range(20):
+            try:
+                A.start_server(port)
+                break
+            except Exception:
+                port += 1000
+        sent = threading.Event()
+        atB = threading.Event()
+        calls = [0]
+
+        def hbB(simp):
+            calls[0] += 1
+            if calls[0] == 3:
+                atB.set()
+                sent.wait(10)       # B stands in the middle of its run until the key has been handled
+        B.heartbeat = hbB
+        calla = [0]
+        holdA = threading.Event()
+
+        def hbA(simp):
+            calla[0] += 1
+            if calla[0] == 2:
+                holdA.wait(10)      # A is still running when the key arrives
+        A.heartbeat = hbA
+        res = {}
+
+        def runit(name, sim, tmax, cfg):
+            try:
+                sim.integrate(tmax, exact_finish_time=eft_of(cfg))
+                res[name] = ("returned", sim._status)
+            except BaseException as e:     # noqa
+                res[name] = ("raised %s" % type(e).__name__, sim._status)
+        ta = threading.Thread(target=runit, args=("A", A, tmaxA, CONFIGS[ca]))
+        tb = threading.Thread(target=runit, args=("B", B, tmaxB, CONFIGS[cb]))
+        ta.start()
+        tb.start()
+        atB.wait(10)
+        try:
+            s_ = socket.create_connection(("127.0.0.1", port), timeout=30)
+            s_.sendall(b"GET /keyboard/81 HTTP/1.1\r\n\r\n")
+            while s_.recv(65536):
+                pass
+            s_.close()
+        except Exception:
+            pass
+        sent.set()
+        holdA.set()
+        ta.join(60)
+        tb.join(60)
+        A.stop_server()
+        V = []
+        try:
+            ctypes.c_int.in_dll(rebound.clibrebound, "reb_sigint").value = 0       # do not let a set flag leak into the next case
+        except Exception:
+            pass
+        if ta.is_alive() or tb.is_alive():
+            return [("hang", "a simulation did not return after the quit key")]
+        if res.get("B", ("?", 0))[0] != "returned" or particles_bits(B) != F0:
+            V.append(("quit-reaches-other-simulation", "the quit key was sent to the server of simulation A; simulation B (no server, other thread) %s with status %d at t=%r and %s the state of its undisturbed run" % (
+                res.get("B", ("?", 0))[0], res.get("B", ("?", 0))[1], B.t, "has" if particles_bits(B) == F0 else "does not have")))
+        if res.get("A", ("?", 0))[1] != 5:
+            V.append(("quit-not-honoured", "simulation A %s with status %d after the quit key (expected the user-exit status 5)" % res.get("A", ("?", 0))))
+        return V
+
+
 # ------------------------------------------------------------------------------------------------ T threads
 T_INTEGS = [("ias15", {}), ("whfast", {}), ("whfast", {"safe_mode": 0, "corrector": 11}), ("whfast", {"safe_mode": 0, "keep_unsynchronized": 1}),
             ("whfast", {"coordinates": "democraticheliocentric"}), ("whfast", {"kernel": "lazy", "corrector": 17}), ("saba", {"safe_mode": 0, "keep_unsynchronized": 1}),
-            ("eos", {"phi0": "pmlf4", "phi1": "lf4", "n": 2}), ("mercurius", {}), ("trace", {}), ("bs", {}), ("leapfrog", {}), ("janus", {"order": 4})]
+            ("eos", {"phi0": "pmlf4", "phi1": "lf4", "n": 2}), ("mercurius", {}), ("trace", {}), ("bs", {}), ("leapfrog", {}), ("janus", {"order": 4}), ("spheres", {})]
 
 
 def writable_segments(path):
@@ -446,6 +528,8 @@ class GlobalsAudit:
             base, segs = writable_segments(os.path.realpath(path))
             before = [ctypes.string_at(a, b - a) for a, b in segs]
             for integ, o in T_INTEGS:
+                if integ == "spheres":
+                    continue
                 sim, P = lattice.make_sim(rebound, {"integ": integ, "o": o, "sys": "S3", "tp": 0, "dtsign": 1})
                 if integ == "janus":
                     sim.exact_finish_time = 0
@@ -490,6 +574,23 @@ class Interleave:
 
     def one(self, cfg, variant):
         integ, o = cfg
+        if integ == "spheres":
+            # overlapping hard spheres in a periodic box: several collisions per step, resolved in an order drawn from the
+            # simulation's own random seed
+            import random
+            rng = random.Random(77 + variant)
+            sim = self.rebound.Simulation()
+            sim.integrator = "leapfrog"
+            sim.gravity = "none"
+            sim.configure_box(10.0)
+            sim.boundary = "periodic"
+            sim.collision = "direct"
+            sim.collision_resolve = "hardsphere"
+            sim.dt = 0.05
+            sim.rand_seed = 4242 + variant
+            for i in range(40):
+                sim.add(m=1.0, r=0.6, x=rng.uniform(-4.5, 4.5), y=rng.uniform(-4.5, 4.5), z=rng.uniform(-1, 1), vx=rng.uniform(-1, 1), vy=rng.uniform(-1, 1), vz=rng.uniform(-0.2, 0.2))
+            return sim
         sim, P = lattice.make_sim(self.rebound, {"integ": integ, "o": o, "sys": "S3" if variant == 0 else "S4G", "tp": 0, "dtsign": 1})
         return sim
 
@@ -602,6 +703,20 @@ def run(ctx):
         nhw += 1 if r[1]["opened"] else 0
         for sig, what in r[1]["V"]:
             ctx.violation("server:heartbeat:%s:%s:call-%s" % (sig, cfg[0], "0" if t[1] == 0 else "n"), "%s: %s" % (lab, what), case)
+    # ---- S'' the quit key and a second simulation
+    qt = []
+    for ca, cb in ((2, 2), (0, 7), (7, 8), (5, 2)):
+        qt.append((ca, cb, port))
+        port += 1
+    qres = pool.run_tasks(QuitIsolation(rebound), qt, timeout=300, chunk=1)
+    for t, r in zip(qt, qres):
+        case = {"quit": [t[0], t[1]]}
+        lab = "A=%s%s with a server, B=%s%s without, in two threads" % (CONFIGS[t[0]][0], CONFIGS[t[0]][1], CONFIGS[t[1]][0], CONFIGS[t[1]][1])
+        if r[0] != "ok":
+            ctx.violation("quit-isolation-%s" % r[0], "%s: %s %s" % (lab, r[0], str(r[1])[-400:]), case)
+            continue
+        for sig, what in r[1]:
+            ctx.violation("server:quit:%s" % sig, "%s: %s" % (lab, what), case)
     # ---- T1
     ga = pool.run_tasks(GlobalsAudit(rebound, libdir), [0], timeout=600, chunk=1)[0]
     nglob = 0
@@ -696,7 +811,7 @@ def run(ctx):
         "evaluations": len(tasks) + len(dry) + nint + nthreadruns + 1,
         "distinct_nontrivial": len(tasks) + nint + len(served),
         "rule": "S: one controlled execution per (configuration, event index, request); requests: GET /simulation at every event, bad requests and the pause sequence (pause key at the event, snapshot while paused, single-step key, snapshot, resume) at every 3rd (thorough: every) event; T2: interleavings of two simulations; T3: workload runs in concurrent threads",
-        "whfast512_interleavings": n_w512, "schedules": len(tasks), "heartbeat_windows": nhw, "pause_sequences": npause[0], "pause_sequences_that_paused": npause[1], "pause_sequences_with_single_step": npause[2], "events_per_configuration": totals and sorted(set(totals.values())), "distinct_served_positions": len(served),
+        "whfast512_interleavings": n_w512, "schedules": len(tasks), "heartbeat_windows": nhw, "quit_isolation_cases": len(qt), "pause_sequences": npause[0], "pause_sequences_that_paused": npause[1], "pause_sequences_with_single_step": npause[2], "events_per_configuration": totals and sorted(set(totals.values())), "distinct_served_positions": len(served),
         "served_positions": sorted("%s->%s:%d" % (a, b, c) for (a, b), c in served.items())[:60],
         "writable_globals_in_library": nglob, "interleavings": nint, "thread_workload_runs": nthreadruns, "tsan_reports_total": races, "exhaustive": True, "samples": [str(tasks[0][:3])],
     }
